@@ -83,6 +83,36 @@ def mTerm (o : BusOut) (i : Nat) : Bool := (o.toM i).ack || (o.toM i).err
 def SlavesBehaved (m : Nat) (o : BusOut) (x : BusIn) : Prop :=
   ∀ j, j < m → sTerm x j = true → (o.toS j).cyc = true ∧ (o.toS j).stb = true
 
+/-! ### Shared-bus address width -/
+
+theorem foldl_max_ge (l : List Nat) : ∀ init, init ≤ l.foldl max init ∧ ∀ w ∈ l, w ≤ l.foldl max init := by
+  induction l with
+  | nil => intro init; simp
+  | cons a rest ih =>
+    intro init
+    have h := ih (max init a)
+    simp only [List.foldl_cons, List.mem_cons]
+    refine ⟨by have := h.1; omega, ?_⟩
+    rintro w (rfl | hw)
+    · have := h.1; omega
+    · exact h.2 w hw
+
+/-- The shared bus is at least as wide as every master (`max([m.adr_width …])`): an address that fits its
+    master's `adr_width` travels unchanged. -/
+theorem ShCfg.busAdr_of_fits (c : ShCfg) (w a : Nat) (hw : w ∈ c.aws) (ha : a < 2 ^ w) : c.busAdr a = a := by
+  unfold ShCfg.busAdr ShCfg.busWidth
+  have hne : c.aws.isEmpty = false := by
+    cases h : c.aws with
+    | nil => rw [h] at hw; simp at hw
+    | cons _ _ => rfl
+  simp only [hne, Bool.false_eq_true, if_false]
+  apply Nat.mod_eq_of_lt
+  have := (foldl_max_ge c.aws 0).2 w hw
+  exact Nat.lt_of_lt_of_le ha (Nat.pow_le_pow_right (by omega) this)
+
+theorem ShCfg.busAdr_unbounded (c : ShCfg) (a : Nat) (h : c.aws = []) : c.busAdr a = a := by
+  simp [ShCfg.busAdr, ShCfg.busWidth, h]
+
 /-! ### Shared interconnect: reachable-state invariant -/
 
 namespace Shared
